@@ -542,4 +542,25 @@ Proof. intros; split; [apply leaf_ok_flatten; assumption | cbn; apply leaf_ok_un
 Lemma leaf_good_unflatten cv n perm : Forall (fun i => (i < n)%nat) perm ->
   nconj cv = cv -> cv <> nzero -> leaf_good (LUnflatten (repeat cv n) perm cv).
 Proof. intros; split; [apply leaf_ok_unflatten; assumption | cbn; apply leaf_ok_flatten; assumption]. Qed.
+Lemma leaves_good_all :
+  (forall (w : vec) s, leaf_good (LScaling w s)) /\
+  (forall w v : vec, length v = length w -> leaf_good (LMultiply w v)) /\
+  (forall wd wr : vec, leaf_good (LZero wd wr)) /\
+  (forall w v : vec, length v = length w -> vconj w = w -> leaf_good (LInner w v)) /\
+  (forall w v : vec, length v = length w -> vconj w = w -> leaf_good (LMulField w v)) /\
+  (forall (c : T) n m (M : list vec), rect n M -> length M = m -> leaf_good (LMatrix (repeat c n) (repeat c m) M)) /\
+  (forall (cv : T) n idx b, Forall (fun i => (i < n)%nat) idx -> nconj cv = cv -> cv <> nzero ->
+     leaf_good (LSampling (repeat cv n) idx b cv) /\ leaf_good (LWSum (repeat cv n) idx b cv) /\
+     leaf_good (LFlatten (repeat cv n) idx cv) /\ leaf_good (LUnflatten (repeat cv n) idx cv)).
+Proof.
+  repeat match goal with |- _ /\ _ => split end.
+  - apply leaf_good_scaling.
+  - apply leaf_good_multiply.
+  - apply leaf_good_zero.
+  - apply leaf_good_inner.
+  - apply leaf_good_mulfield.
+  - apply leaf_good_matrix_const.
+  - intros; repeat match goal with |- _ /\ _ => split end;
+      [apply leaf_good_sampling | apply leaf_good_wsum | apply leaf_good_flatten | apply leaf_good_unflatten]; assumption.
+Qed.
 End Leaf.
